@@ -544,8 +544,11 @@ class Mod:
         if rel == "go.mod":
             return "module %s\n\ngo 1.24\n" % MODNAME
         if rel == "main.go":
+            # a THIN main: no println, allocation, defer, map, channel or interface use of its own - it needs the llgo runtime
+            # only through its dependencies (build.go: the entry calls runtime.init iff some package reports NeedRt, which for a
+            # package served from the cache is read back from the cache manifest)
             return ('package main\n\nimport (\n\t"%s/a"\n\t"%s/b"\n\t"%s/cfg"\n)\n\nconst Src = %d\n\n%s\nfunc main() {\n'
-                    '\tprintln("main.src", Src)\n\tprintln("main.fill", fill())\n\tprintln("main.cfg", cfg.Size)\n\ta.Report()\n\tb.Report()\n}\n'
+                    '\ta.Main(Src, fill(), cfg.Size)\n\ta.Report()\n\tb.Report()\n}\n'
                     % (MODNAME, MODNAME, MODNAME, c["main"], filler("main", 2)))
         if rel == "cfg/cfg.go":
             # a decl-only package (cl.PkgDeclOnly): never compiled, no archive; its constants and types live in its importers
@@ -554,7 +557,10 @@ class Mod:
             return ('package a\n\nimport (\n\t_ "unsafe"\n\n\t"%s/c"\n)\n\nconst LLGoFiles = "_wrap/w.c"\n\nconst Src = %d\n\n'
                     '//go:linkname cval C.verif_a_cval\nfunc cval() int32\n\n//go:linkname kval C.verif_a_kval\nfunc kval() int32\n\n'
                     '//go:linkname optval C.verif_a_opt\nfunc optval() int32\n\n'
-                    'var XA = "xa-default"\n\n%s\nfunc Report() {\n\tprintln("a.src", Src)\n\tprintln("a.cside", cval())\n\tprintln("a.k", kval())\n'
+                    'var XA = "xa-default"\n\n%s\n// Main prints what package main computed (main itself must stay free of runtime calls)\n'
+                    'func Main(src, fill, cfgsize int) {\n\tprintln("main.src", src)\n\tprintln("main.fill", fill)\n\tprintln("main.cfg", cfgsize)\n}\n\n'
+                    'func Report() {\n\tm := map[string]int{"src": Src}\n\tdefer func() { println("a.defer", m["src"]+len(m)) }()\n'
+                    '\tprintln("a.src", Src)\n\tprintln("a.cside", cval())\n\tprintln("a.k", kval())\n'
                     '\tprintln("a.opt", optval())\n'
                     '\tprintln("a.x", XA)\n\tprintln("a.tag", tagval)\n\tprintln("a.fill", fill())\n\tprintln("a.cc", c.Const)\n\tc.Report()\n}\n'
                     % (MODNAME, c["a"], filler("a", self.nfill)))
@@ -615,7 +621,7 @@ class Mod:
     RESP = {"main.src": "main.go", "main.fill": "main.go", "a.src": "a/a.go", "a.cside": "a/_wrap/w.c", "a.k": "env:CCFLAGS", "a.x": "flag:-X",
             "a.tag": "flag:-tags", "a.fill": "a/a.go", "a.cc": "c/c.go", "a.extra": "a/extra.go", "c.src": "c/c.go", "c.fill": "c/c.go",
             "b.src": "b/b.go", "b.cc": "c/c.go", "b.cv": "c/c.go", "b.fill": "b/b.go", "main.cfg": "cfg/cfg.go", "c.cfg": "cfg/cfg.go",
-            "a.opt": "flag:-O", "main.trace": "env:LLGO_TRACE", "a.trace": "env:LLGO_TRACE", "b.trace": "env:LLGO_TRACE", "c.trace": "env:LLGO_TRACE"}
+            "a.opt": "flag:-O", "a.defer": "a/a.go", "main.trace": "env:LLGO_TRACE", "a.trace": "env:LLGO_TRACE", "b.trace": "env:LLGO_TRACE", "c.trace": "env:LLGO_TRACE"}
     CONST_OF = {"main.go": "main", "a/a.go": "a", "b/b.go": "b", "c/c.go": "c", "a/_wrap/w.c": "cside", "a/extra.go": "extra", "cfg/cfg.go": "cfg"}
 
     def expected(self):
@@ -628,7 +634,7 @@ class Mod:
                 "a.k %d" % (1 if self.K is None else self.K), "a.opt %d" % (0 if self.opt == "-O0" else 1),
                 "a.x %s" % ("xa-default" if self.xa is None else self.xa),
                 "a.tag %d" % (1 if self.tagx else 0), "a.fill %d" % expected_fill(self.nfill), "a.cc %d" % c["c"], "c.src %d" % c["c"],
-                "c.cfg %d" % (2 * c["cfg"]), "c.fill %d" % expected_fill(self.nfill), "b.src %d" % c["b"], "b.cc %d" % c["c"], "b.cv %d" % (c["c"] + 1),
+                "c.cfg %d" % (2 * c["cfg"]), "c.fill %d" % expected_fill(self.nfill), "a.defer %d" % (c["a"] + 1), "b.src %d" % c["b"], "b.cc %d" % c["c"], "b.cv %d" % (c["c"] + 1),
                 "b.fill %d" % expected_fill(self.nfill)]
         return out
 
@@ -772,7 +778,21 @@ class Builder:
             cmd.append("-a")
         cmd += ["-o", out, "."]
         self.nbuilds += 1
-        p = run_cmd(cmd, cwd=mod.root, env=self.env(mod, xdg), timeout=1800)
+        e = self.env(mod, xdg)
+        self.last_meta = None
+        if self.is_harness:
+            mo = out + ".meta"
+            if os.path.exists(mo):
+                os.remove(mo)
+            e["VERIF_META_OUT"] = mo
+        p = run_cmd(cmd, cwd=mod.root, env=e, timeout=1800)
+        if self.is_harness and p.returncode == 0 and os.path.exists(mo):
+            # package -> (served from the cache?, (need_rt, need_pyinit, link args)) as build.Do ended up with
+            self.last_meta = {}
+            for l in open(mo).read().split("\n"):
+                f = l.split(" ")
+                if len(f) == 5 and f[0].startswith(MODNAME + "/"):
+                    self.last_meta[f[0].split("/")[-1]] = (f[1] == "true", (f[2], f[3], f[4]))
         return p, cmd
 
 
@@ -834,17 +854,18 @@ def run_history(ctx, builder, hello, modeld, hid, script, fresh_oracle, res, cfg
             # seed the oracle's cache with the runtime archives this build produced (saves one runtime compile); the
             # oracle only has to be free of archives of the MODULE's packages, which are dropped before every oracle build
             shutil.copytree(os.path.join(xdg, "llgo"), os.path.join(oxdg, "llgo"), dirs_exist_ok=True)
+        step_meta = builder.last_meta
         sout, err, rc = run_prog(prog)
         got = out_lines(sout + "\n" + err)      # println writes to stderr, the LLGO_TRACE call trace to stdout
         # the oracle: a clean build of the current inputs (no archive of any package of the module in its cache; in
         # `fresh_oracle` mode a completely empty cache directory)
         all_miss = all((after.get(pk, set()) - before.get(pk, set())) for pk in PKGS) and not fresh_oracle
         if last_inputs == inputs_id and last_oracle is not None:
-            want = last_oracle
+            want, orc = last_oracle
         elif all_miss:
             # every package of the module was compiled in this very build (nothing came from the cache): it IS a clean build
-            want = got
-            last_oracle, last_inputs = want, inputs_id
+            want, orc = got, rc
+            last_oracle, last_inputs = (want, orc), inputs_id
         else:
             if fresh_oracle:
                 shutil.rmtree(oxdg, ignore_errors=True)
@@ -857,7 +878,7 @@ def run_history(ctx, builder, hello, modeld, hid, script, fresh_oracle, res, cfg
                 raise RuntimeError("oracle build failed in history %s step %d (%s):\n%s" % (hid, si, desc, (po.stdout + po.stderr)[-3000:]))
             osout, oerr, orc = run_prog(oprog)
             want = out_lines(osout + "\n" + oerr)
-            last_oracle, last_inputs = want, inputs_id
+            last_oracle, last_inputs = (want, orc), inputs_id
             res["oracle_builds"] += 1
         res["steps"] += 1
         res["edit_kinds"][kind] = res["edit_kinds"].get(kind, 0) + 1
@@ -873,11 +894,29 @@ def run_history(ctx, builder, hello, modeld, hid, script, fresh_oracle, res, cfg
         gotd = dict(l.split(" ", 1) for l in got)
         stale = sorted(k for k in set(wantd) | set(gotd) if wantd.get(k) != gotd.get(k))
         step = {"step": si, "edit": desc, "cmd": " ".join(cmd[1:]), "stale_lines": stale, "observed": observed, "model_line": len(model_lines) - 1,
+                "_meta": step_meta,
                 "_snap": {"kind": kind, "arg": arg, "hidden": bool(arg and kind in ("src-hidden", "revert") and mod.is_hidden(arg)), "edits_so_far": list(mod.log),
                           "command": cmd[1:], "env_CCFLAGS_extra": None if mod.K is None else "-DK=%d" % mod.K, "env_extra": dict(mod.envx),
                           "module_files": {rel: open(os.path.join(mod.root, rel)).read() for rel in mod.files()}}}
         steps.append(step)
-        for line in stale:
+        if stale and (rc != orc or 2 * len(stale) > len(wantd)):
+            # not one input that is out of date: the program assembled from cached archives does not work like the clean build
+            # (wrong exit status, or most lines differ)
+            key = "cache:program-from-cached-archives-misbehaves"
+            res["stale"][key] = res["stale"].get(key, 0) + 1
+            ctx.report(key, "after `%s` the program linked from cached archives (cache decisions %s) exits with %s and prints %d lines that differ from the "
+                       "clean build of the same inputs (exit %s), e.g. `%s %s` instead of `%s %s`"
+                       % (desc, observed, rc, len(stale), orc, stale[0], gotd.get(stale[0]), stale[0], wantd.get(stale[0])),
+                       {"history": hid, "compiler": "harness build (build.Do + -X)" if builder.is_harness else "llgo build", "edits_so_far": list(mod.log),
+                        "step": si, "cache_decisions": observed, "exit_through_cache": rc, "exit_clean_build": orc, "through_cache": got, "clean_build": want,
+                        "raw_output_through_cache": (sout + err)[-2000:], "command": cmd[1:], "env_CCFLAGS_extra": None if mod.K is None else "-DK=%d" % mod.K,
+                        "env_extra": dict(mod.envx), "module_files": {rel: open(os.path.join(mod.root, rel)).read() for rel in mod.files()},
+                        "how": "write the files, run the listed edits each followed by the command with ONE private XDG_CACHE_HOME (the last command "
+                               "finds every package of the module in the cache); compare with the same command under an empty XDG_CACHE_HOME"})
+            stale_to_classify = []
+        else:
+            stale_to_classify = stale
+        for line in stale_to_classify:
             resp = Mod.RESP.get(line, "?")
             if resp in ("c/c.go", "a/a.go", "b/b.go", "a/extra.go", "cfg/cfg.go") and mod.is_hidden(resp):
                 key = KNOWN_CLASSES["mtime"]
@@ -902,19 +941,43 @@ def run_history(ctx, builder, hello, modeld, hid, script, fresh_oracle, res, cfg
     # the Lean model's buildProg over the same history: hit/miss and fresh/stale per package
     answers = model_lines_run(modeld, cfg, model_lines)
     seen_rel = {}          # package -> relevant-input hashes of every build since the cache was last empty
+    stored_meta = {}       # (package, fingerprint) -> metadata the compiler computed when it built and stored the package
     for step in steps:
         ml = step.pop("model_line")
         snap = step.pop("_snap")
+        meta = step.pop("_meta")
         if snap["kind"] == "clear":
             seen_rel = {}
+            stored_meta = {}
         ans = answers[ml]
         mpred = {}
         if ans.startswith("ok"):
             for t in ans.split()[1:]:
-                i, hm, fs, rh = t.split(":")
-                mpred[bytes.fromhex(i).decode().split("/")[-1]] = (hm, fs, rh)
+                i, hm, fs, rh, kh = t.split(":")
+                mpred[bytes.fromhex(i).decode().split("/")[-1]] = (hm, fs, rh, kh)
         else:
             res["model_errors"].append(ans)
+        # "metadata recomputed on a miss equals metadata read back on a hit": what build.Do ends up with for a package
+        # (need_rt, need_pyinit, link args) must not depend on whether the archive came from the cache
+        if meta:
+            res["metadata_compared"] = res.get("metadata_compared", 0)
+            for pk in PKGS:
+                m = mpred.get(pk)
+                if m is None or pk not in meta:
+                    continue
+                hit, md = meta[pk]
+                if not hit:
+                    stored_meta[(pk, m[3])] = md
+                elif (pk, m[3]) in stored_meta:
+                    res["metadata_compared"] += 1
+                    if stored_meta[(pk, m[3])] != md:
+                        key = "cache:metadata-read-back-differs"
+                        res["stale"][key] = res["stale"].get(key, 0) + 1
+                        ctx.report(key, "package %s/%s: the build that compiled it ended with (need_rt, need_pyinit, link_args) = %s, the build that took the same "
+                                   "archive from the cache (after `%s`) with %s" % (MODNAME, pk, stored_meta[(pk, m[3])], step["edit"], md),
+                                   dict(snap, history=hid, step=step["step"], package=pk, on_miss=stored_meta[(pk, m[3])], on_hit=md,
+                                        how="harness/c13 `build` mode = build.Do; VERIF_META_OUT=<file> makes it write NeedRt/NeedPyInit/LinkArgs/CacheHit "
+                                            "of every package after the build; build, apply the edits, build again with the same XDG_CACHE_HOME"))
         # spec (second form): a package served from the cache although its relevant inputs differ from those of EVERY build
         # since the cache was empty - whatever archive was served, it was compiled from other inputs ("the next build
         # reflects the change" fails even where the program's output cannot show it, e.g. LLGO_OPTIMIZE=off)
@@ -1076,6 +1139,20 @@ def run(ctx, args):
     for i in range(6):
         if out[1 + i] != use_model[i]:
             broken.append("crosscompile.Use CCFLAGS for level %d: real %s, model %s" % (i, out[1 + i], use_model[i]))
+    # ---- tie B-O (1b): the metadata stored next to an archive (need_rt, need_pyinit, link args) comes back unchanged:
+    # real saveToCache followed by real tryLoadFromCache on a fresh package record with the same fingerprint
+    mreq = []
+    for rt in (0, 1):
+        for py in (0, 1):
+            for la in ([], ["-lm"], ["-L/opt/x y", "-lfoo", "-Wl,-rpath,/a"], [rword(ctx.rng) or "-lz" for _ in range(3)]):
+                mreq.append((rt, py, la))
+    mout, _, merr = run_lines([harness], ["meta %d %d %s" % (rt, py, hlist(la)) for rt, py, la in mreq])
+    for (rt, py, la), o in zip(mreq, mout + ["(no answer)"] * (len(mreq) - len(mout))):
+        if o != "ok hit=true %d %d %s" % (rt, py, hlist(la)):
+            ctx.report("cache:metadata-roundtrip:%d:%d:%s" % (rt, py, hlist(la)),
+                       "saveToCache followed by tryLoadFromCache does not return the stored metadata: stored need_rt=%d need_pyinit=%d link_args=%s, got `%s`"
+                       % (rt, py, la, o), {"request": "meta %d %d %s" % (rt, py, hlist(la)), "answer": o, "stderr": merr[-500:],
+                                           "how": "harness/c13 line protocol, VerifMetaRoundTrip in the overlay"})
     # ---- which variant of the fingerprint code is this tree?  (Model/Cache.lean mirrors both: Cfg)
     cfg = probe_variant(harness, hello)
     ctx.log("fingerprint variant of the working tree: contentHash=%s ccflagsEnv=%s (%s)" % (cfg[0], cfg[1],
@@ -1170,7 +1247,8 @@ def run(ctx, args):
                 "file); B-E: one evaluation = one history step = (edit, build through the cache, clean build, run both, compare line by line)",
         "input_distribution": {"manifest_correspondence": cstats, "history_edit_kinds": res["edit_kinds"], "history_steps": res["steps"],
                                "oracle_builds": res["oracle_builds"], "llgo_builds": b_llgo.nbuilds, "harness_builds": b_harn.nbuilds,
-                               "package_cache_decisions_compared_with_model": res["pkg_builds"], "model_stale_predictions": res["model_stale_predictions"]},
+                               "package_cache_decisions_compared_with_model": res["pkg_builds"], "model_stale_predictions": res["model_stale_predictions"],
+                               "metadata_roundtrips": len(mreq), "metadata_hit_vs_miss_compared": res.get("metadata_compared", 0)},
         "stale_lines_by_class": res["stale"],
         "ir_modules_compared": len(res["ir_modules"]), "ir_bytes_compared": res["ir_bytes"], "ir_differences": res["ir_differences"],
         "correspondence_mismatches": len(field_mm) + len(harmful) + len(res["real_coarser"]),
